@@ -184,9 +184,16 @@ class Reference:
         return obs, rew, term, trunc, info, reset
 
 
+def aorder(case):
+    """insertion order of the action dict the caller passes (a permutation of the agents)"""
+    o = case.get("aorder")
+    return list(range(case["nag"])) if not o else [int(a) for a in o]
+
+
 def env_params(case, i, e):
     return dict(eid=i, nagents=case["nag"], lens=e["lens"], mode=e["mode"], leave=e.get("leave", {}),
-                kind=case["obs"], akind=case["akind"], unaligned=bool(e.get("unaligned", False)))
+                kind=case["obs"], akind=case["akind"], unaligned=bool(e.get("unaligned", False)),
+                reversed_out=bool(e.get("reversed_out", False)))
 
 
 # ------------------------------------------------------------------ the driver
@@ -214,7 +221,24 @@ class C12(vlib.Driver):
         quick = tier == "quick"
 
         def actions(n_steps, nag, N):
-            return [[[rng.randrange(5) for _ in range(N)] for _ in range(nag)] for _ in range(n_steps)]
+            # agent a never gets the same code as agent a+1 in the same env and step, so that a confusion of
+            # agents is visible in the echoed action
+            out = []
+            for _ in range(n_steps):
+                base = [rng.randrange(5) for _ in range(N)]
+                k = [rng.choice([1, 2]) for _ in range(N)]
+                out.append([[(base[e] + a * k[e]) % 5 for e in range(N)] for a in range(nag)])
+            return out
+
+        def perm(nag, permuted=True):
+            """insertion order of the caller's action dict; a non-identity permutation when possible"""
+            ident = list(range(nag))
+            if not permuted or nag < 2:
+                return ident
+            p = ident[:]
+            while p == ident:
+                rng.shuffle(p)
+            return p
 
         # structured grid: every obs kind x action kind x end mode x leave pattern x copy mode, three
         # environments whose episode lengths differ so that resets interleave
@@ -227,8 +251,12 @@ class C12(vlib.Driver):
                     {"lens": [3, 1], "mode": mode, "leave": leaves[lv] if lv == 2 else {}}]
             if quick and not (copy or akind == "discrete"):
                 continue
+            if (lv + (0 if copy else 1)) % 2 == 1:      # half of the grid: every env returns its dicts reversed
+                for e in envs:
+                    e["reversed_out"] = True
             cases.append({"kind": "vec", "obs": obs, "akind": akind, "nag": nag, "copy": copy,
-                          "seed": rng.choice([None, 0, 3, 11]), "envs": envs, "actions": actions(7, nag, 3)})
+                          "seed": rng.choice([None, 0, 3, 11]), "envs": envs, "actions": actions(7, nag, 3),
+                          "aorder": perm(nag, len(cases) % 3 != 0)})
         def rand_space():
             st = rng.choice(["plain", "dict", "tuple"])
             ms = []
@@ -254,12 +282,13 @@ class C12(vlib.Driver):
                 if rng.random() < 0.4:
                     for a in rng.sample(range(nag), rng.randint(1, nag)):
                         leave[str(a)] = rng.randint(1, 4)
-                envs.append({"lens": lens, "mode": rng.choice(["term", "trunc", "mixed"]), "leave": leave})
+                envs.append({"lens": lens, "mode": rng.choice(["term", "trunc", "mixed"]), "leave": leave,
+                             "reversed_out": rng.random() < 0.3})
             steps = rng.randint(6, 12) if quick else rng.randint(6, 14)
             cases.append({"kind": "vec", "obs": rng.choice(c12_env.OBS_KINDS) if rng.random() < 0.5 else rand_space(),
                           "akind": rng.choice(c12_env.ACT_KINDS),
                           "nag": nag, "copy": rng.random() < 0.6, "seed": rng.choice([None, 0, 1, 7, 20]),
-                          "envs": envs, "actions": actions(steps, nag, N)})
+                          "envs": envs, "actions": actions(steps, nag, N), "aorder": perm(nag, rng.random() < 0.6)})
         # other multiprocessing start methods (workers import c12_env themselves; ~8 s per run)
         for ctx, obs in ([("spawn", "dict")] if quick else [("spawn", "dict"), ("spawn", "image"), ("forkserver", "tuple"), ("forkserver", "vector")]):
             envs = [{"lens": [2], "mode": "trunc", "leave": {}}, {"lens": [3, 1], "mode": "term", "leave": {"1": 1}}]
@@ -277,13 +306,14 @@ class C12(vlib.Driver):
             nag = 2 if lv < 2 else 3
             cases.append({"kind": "wrap", "obs": "vector", "akind": "discrete", "nag": nag, "seed": None,
                           "env": {"lens": [2, 1], "mode": mode, "leave": leaves[lv], "unaligned": True},
-                          "actions": [[rng.randrange(5) for _ in range(nag)] for _ in range(6)]})
+                          "actions": [[x[0] for x in st] for st in actions(6, nag, 1)],
+                          "aorder": perm(nag)})
         # the single-environment wrapper
         for mode, lv, obs in itertools.product(("term", "trunc", "mixed"), range(3), ("vector", "dict")):
             nag = 2 if lv < 2 else 3
             cases.append({"kind": "wrap", "obs": obs, "akind": "discrete", "nag": nag, "seed": rng.choice([None, 2]),
                           "env": {"lens": [2, 1, 3], "mode": mode, "leave": leaves[lv]},
-                          "actions": [[rng.randrange(5) for _ in range(nag)] for _ in range(8)]})
+                          "actions": [[x[0] for x in st] for st in actions(8, nag, 1)], "aorder": perm(nag, lv != 1)})
         for _ in range(30 if quick else 400):
             nag = rng.randint(1, 3)
             leave = {}
@@ -294,7 +324,8 @@ class C12(vlib.Driver):
                           "nag": nag, "seed": rng.choice([None, 0, 5]),
                           "env": {"lens": [rng.choice([1, 2, 3, 5]) for _ in range(rng.randint(1, 3))],
                                   "mode": rng.choice(["term", "trunc", "mixed"]), "leave": leave},
-                          "actions": [[rng.randrange(5) for _ in range(nag)] for _ in range(rng.randint(6, 12))]})
+                          "actions": [[x[0] for x in st] for st in actions(rng.randint(6, 12), nag, 1)],
+                          "aorder": perm(nag, rng.random() < 0.6)})
         return cases
 
     # ---------- implementation
@@ -322,7 +353,8 @@ class C12(vlib.Driver):
                 if case["copy"]:
                     handed.append((o, obs_out["reset"]["obs"], -1))
                 for si, step in enumerate(case["actions"]):
-                    acts = {f"agent_{a}": np.stack([act_value(akind, step[a][e]) for e in range(N)]) for a in range(nag)}
+                    # the caller's dict may list the agents in any order: it is a map
+                    acts = {f"agent_{a}": np.stack([act_value(akind, step[a][e]) for e in range(N)]) for a in aorder(case)}
                     o, r, te, tr, inf = ve.step(acts)
                     rec = {"obs": canon_vobs(kind, o), "rew": canon_vec(r), "term": canon_vec(te),
                            "trunc": canon_vec(tr), "info": canon_infos(inf)}
@@ -355,7 +387,7 @@ class C12(vlib.Driver):
             o, inf = env.reset(seed=case["seed"])
             out["reset"] = {"obs": canon_single(kind, o), "info": canon_sinfo(inf)}
             for step in case["actions"]:
-                acts = {f"agent_{a}": act_value(akind, step[a]) for a in range(nag)}
+                acts = {f"agent_{a}": act_value(akind, step[a]) for a in aorder(case)}
                 o, r, te, tr, inf = env.step(acts)
                 out["steps"].append({"obs": canon_single(kind, o), "rew": canon_sdict(r, to_int),
                                      "term": canon_sdict(te, bool), "trunc": canon_sdict(tr, bool),
@@ -381,7 +413,7 @@ class C12(vlib.Driver):
             rs = obs["reset"]
             steps = []
             for step, rec in zip(case["actions"], obs["steps"]):
-                acts = cdict([(a, step[a]) for a in range(nag)], czs)
+                acts = cdict([(a, step[a]) for a in aorder(case)], czs)
                 ost = (f"({cvobs(rec['obs'])}, {cdict([(a, v) for a, v, _ in rec['rew']], czs)}, "
                        f"{cdict([(a, v) for a, v, _ in rec['term']], cbs)}, {cdict([(a, v) for a, v, _ in rec['trunc']], cbs)}, "
                        f"{cvinfo(rec['info'])})")
@@ -601,6 +633,9 @@ class C12(vlib.Driver):
         labs.append("leavers" if any(e.get("leave") for e in envs) else "no-leavers")
         if any(e.get("unaligned") for e in envs):
             labs.append("unaligned-dicts")
+        if any(e.get("reversed_out") for e in envs):
+            labs.append("env-dicts-reversed")
+        labs.append("action-dict=" + ("agents-order" if aorder(case) == list(range(case["nag"])) else "permuted"))
         if absent:
             labs.append("branch:placeholder-filled" if case["kind"] == "vec" else "branch:agent-absent")
         labs.append("branch:auto-reset" if n_reset else "branch:no-auto-reset")
